@@ -1,7 +1,7 @@
 from props import sched_common
 
 THEOREMS = ["Dispenso.Sched." + t for t in ['C05_capture_state', 'C05_rethrows_le_captures', 'C05_captured_nodup', 'C05_capture_once', 'C05_rethrow_after_zero', 'C05_done_delivers']]
-# (flavour, scenarios in the quick tier): 0 mixed, 1 without resize, 2 resize-heavy
+# (flavour, scenarios in the quick tier): 0 mixed, 1 without resize, 2 resize-heavy, 3 overloaded pool + chains
 FLAVOURS = [(1, 250), (0, 150)]
 
 
